@@ -286,6 +286,8 @@ impl World {
 
     /// Execute one operation as `actor`; never panics on API errors.
     pub fn exec(&self, actor: usize, index: usize, op: &Op) -> OpResult {
+        // deterministic iteration budget for the hooked tail-window loops, per operation
+        crate::sched::ticks_reset(400);
         let st = self.st();
         let store = st.store.as_ref();
         let mut res = OpResult {
